@@ -28,6 +28,7 @@ MANIFEST = {
             "Sampled inputs; equality oracle needs no reference model.",
 }
 MANIFEST["text"] += ' Every configuration is also compared with the same configuration generated alone in a fresh process; histories include earlier runs of the same language and templates with other template whitespace options and a user template folder that held only a catch-all template when an earlier generator was built on it; c++17-pmr and non-default whitespace options are among the configurations.'
+MANIFEST["text"] += " The fixed set carries documentation shapes (indented list endings, lines long enough to be wrapped); further histories: the output directory already holds the same files with CRLF endings; one generator's first generate_all() is aborted after a file was rendered and generate_all() is called again."
 
 STRESS = {
     "c": ("// {{ T.full_name }}\n\n\n{% for i in range(3) %}{{ 'tmp' | to_template_unique_name }} {% endfor %}\n"
